@@ -239,9 +239,9 @@ class TickRateAttribute:
 
     if tr is not None:
 
-      m = TickRateAttribute._TICK_RATE_RE.match(tr)
+      m = TickRateAttribute._TICK_RATE_RE.fullmatch(tr)
 
-      if m is not None:
+      if m is not None and int(m.group(1)) > 0:
 
         return int(m.group(1))
 
@@ -345,9 +345,9 @@ class FrameRateAttribute:
 
     if fr_raw is not None:
 
-      m = FrameRateAttribute._FRAME_RATE_RE.match(fr_raw)
+      m = FrameRateAttribute._FRAME_RATE_RE.fullmatch(fr_raw)
 
-      if m is not None:
+      if m is not None and int(m.group(1)) > 0:
 
         fr = Fraction(m.group(1))
 
@@ -363,9 +363,9 @@ class FrameRateAttribute:
 
     if frm_raw is not None:
 
-      m = FrameRateAttribute._FRAME_RATE_MULT_RE.match(frm_raw)
+      m = FrameRateAttribute._FRAME_RATE_MULT_RE.fullmatch(frm_raw)
 
-      if m is not None:
+      if m is not None and int(m.group(1)) > 0 and int(m.group(2)) > 0:
 
         frm = Fraction(int(m.group(1)), int(m.group(2)))
 
